@@ -31,6 +31,8 @@ def run(rep):
     rep.guard(c04_narrow.b4n, rep, w)   # never panics: no sub-word counter the compiler keeps can overflow (checked builds panic on the overflow)
     import c13
     rep.guard(c13.u3, rep, w)     # compile-time code outside the scanner (messages that quote source text) slices strings only at positions the string vouched for
+    import c04
+    rep.guard(c04.b7, rep, w)     # what compile() returns is runnable: every function is finalised with the implicit return on every path (a guess from the last byte, which may be an operand, leaves code that runs off its end)
 
 
 def t1(rep, w):
